@@ -146,6 +146,18 @@ theorem failing_input_removable_labelFree (P : Stages μ κ σ τ θ T C V E ν 
         (runHist P s (h₁ ++ h₂)).2 = (runHist P s h₁).2 ++ o₂' ∧ OutRel (· = ·) o₂ o₂' :=
   failing_input_removable P (congruence_of_labelFree P hP) s h₁ h₂ bad e hbad
 
+/-- a concrete instance: `let v`, then the failing `use 7⏎<run-time error>`, then `use 7⏎print` -/
+example :
+    let P := Names.stages (ν := Nat) [((7 : Nat), ⟨false, [.defn [(.fn, 1)]]⟩)] 4
+    let s : Names.NSession Nat Nat := Names.NSession.init []
+    let h₁ : List (Names.Code Nat Nat × Source Nat) := [(⟨false, [.defn [(.var, 2)]]⟩, .text)]
+    let bad : Names.Code Nat Nat × Source Nat := (⟨false, [.use 7, .failAt .run]⟩, .text)
+    let h₂ : List (Names.Code Nat Nat × Source Nat) := [(⟨false, [.use 7, .plain]⟩, .text)]
+    ObsEq (runHist P s (h₁ ++ bad :: h₂)).1 (runHist P s (h₁ ++ h₂)).1 ∧
+      (runHist P s (h₁ ++ bad :: h₂)).1.checker = [(.var, 2), (.fn, 1)] := by
+  intro P s h₁ bad h₂
+  exact ⟨(failing_input_removable_labelFree P (fun _ _ _ => rfl) s h₁ h₂ bad (.runtime ()) rfl).1, rfl⟩
+
 /-- non-vacuity of `LabelFree` / `Congruence`: the name-level instance executed by the driver -/
 theorem names_labelFree (table : List (μ × Names.Code μ ν)) (d : Nat) : LabelFree (Names.stages table d) :=
   fun _ _ _ => rfl
